@@ -187,7 +187,29 @@ class PlaceEngine(object):
                     exc[(x, y)] = dict(items)
         if len(dead) == W * H:
             dead.pop()
+        # dead links, each given in one direction only (a link may be listed
+        # without its twin): singles, every link out of a chip, every link
+        # into a chip, both.  Only placers that look at the machine's links
+        # (chip orders) can be affected; placement must stay feasible and
+        # complete whatever the links are.
         dead_links = set()
+        if t.draw(3) == 0:
+            Links = rig_module("rig.links").Links
+            dirs = list(Links)
+            vec = {d: d.to_vector() for d in dirs}
+            for _ in range(1 + t.draw(3)):
+                x, y = t.draw(W), t.draw(H)
+                k = t.draw(4)
+                if k == 0:
+                    dead_links.add((x, y, dirs[t.draw(6)]))
+                    continue
+                for d in dirs:
+                    if k in (1, 3):
+                        dead_links.add((x, y, d))
+                    if k in (2, 3):
+                        dx, dy = vec[d]
+                        dead_links.add(((x - dx) % W, (y - dy) % H, d))
+            w.probe("dead_links_one_way")
         machine = par.Machine(W, H, base, exc, dead, dead_links)
         self.machine = machine
         self.mv = prcheck.MachineView(machine)
